@@ -56,6 +56,15 @@ let rec sub n0 m =
             | O -> n0
             | S l -> sub k l)
 
+(** val last : 'a1 list -> 'a1 -> 'a1 **)
+
+let rec last l d =
+  match l with
+  | [] -> d
+  | a :: l0 -> (match l0 with
+                | [] -> a
+                | _ :: _ -> last l0 d)
+
 (** val rev : 'a1 list -> 'a1 list **)
 
 let rec rev = function
@@ -1125,9 +1134,13 @@ let load_log =
 
 let record_append file es =
   app file
-    (app (match file with
-          | [] -> log_header
-          | _ :: _ -> []) (concat (map render_entry es)))
+    (app
+      (match file with
+       | [] -> log_header
+       | _ :: _ ->
+         if N.eqb (last file N0) (Npos (XO (XI (XO XH))))
+         then []
+         else (Npos (XO (XI (XO XH)))) :: []) (concat (map render_entry es)))
 
 (** val recompact : (bytes -> bool) -> entry list -> bytes **)
 
